@@ -164,7 +164,18 @@ class Engine:
     def _checkpoint_of_original(self, scratch, spec, persist):
         original = self.cls(inputs=self.case['program'].get('inputs'), pid=self._pid(), loop=scratch)
         original._sim_label = 'p'
-        if spec.get('after') == 'rest':
+        if spec.get('after') == 'terminated':
+            # the checkpoint of a process that is over (somebody loads it to look at it, or continues it by mistake)
+            task = scratch.create_task(original.step_until_terminated())
+            with scratch.running():
+                while scratch.step_once():
+                    pass
+                if not original.has_terminated():
+                    original.kill('terminated before the checkpoint was taken')
+                    while scratch.step_once():
+                        pass
+            self.world.events.clear()
+        elif spec.get('after') == 'rest':
             task = scratch.create_task(original.step_until_terminated())
             with scratch.running():
                 while scratch.step_once():
